@@ -349,7 +349,7 @@ func (c Case) inverse(m smf.Message) string {
 	case "Tempo":
 		var back float64
 		m.GetMetaTempo(&back)
-		if math.Abs(6e7/back-6e7/c.bpm()) >= 1 { // the field's resolution is one microsecond: rounding to nearest and truncation both qualify
+		if math.Abs(6e7/back-6e7/c.bpm()) > 1+1e-6 { // the field's resolution is one microsecond: rounding to nearest and truncation both qualify
 			return fmt.Sprintf("MetaTempo(%v): GetMetaTempo = %v; in microseconds per quarter %.3f vs %.3f (more than the field's resolution apart)", c.bpm(), back, 6e7/back, 6e7/c.bpm())
 		}
 	default:
@@ -417,7 +417,7 @@ func genCase(t *rapid.T) Case {
 func d8(t *rapid.T) int { return int(rapid.Byte().Draw(t, "byte")) }
 
 var metas = ev.NewCheck("C15", "constructors",
-	"rapid: the 9 text constructors with arbitrary bytes of length 0..20000 (biased to 127/128/129/16383/16384), MetaSequencerData 1..20000 bytes, SMPTE offset fields, time signatures numerator 0..255 x denominator 1..128 (powers of two) x clocks x 32nds (0 = documented shorthand for 8), MetaMeter, tempi as every 24-bit microseconds-per-quarter value (sampled) and random BPM 3.58..6e7; oracle: message is FF/type/canonical VLQ/payload with exact length by the harness parser, exactly the matching accessor accepts, accessor returns the arguments (tempo less than 1 us per quarter away, the resolution of the field); non-trivial = payload >= 128 bytes or a non-text constructor; distinct by case hash",
+	"rapid: the 9 text constructors with arbitrary bytes of length 0..20000 (biased to 127/128/129/16383/16384), MetaSequencerData 1..20000 bytes, SMPTE offset fields, time signatures numerator 0..255 x denominator 1..128 (powers of two) x clocks x 32nds (0 = documented shorthand for 8), MetaMeter, tempi as every 24-bit microseconds-per-quarter value (sampled) and random BPM 3.58..6e7; oracle: message is FF/type/canonical VLQ/payload with exact length by the harness parser, exactly the matching accessor accepts, accessor returns the arguments (tempo at most 1 us per quarter away, the resolution of the field); non-trivial = payload >= 128 bytes or a non-text constructor; distinct by case hash",
 	genCase, run)
 
 func TestPropConstructors(t *testing.T) { metas.Rapid(t, 4000, 100000) }
